@@ -56,7 +56,9 @@ class CompileMapper(StringifyMapper):
     def map_polynomial(self, expr, enclosing_prec):
         # Use Horner's scheme to evaluate the polynomial
 
-        sbase = self(expr.base, PREC_POWER)
+        # (a base that is itself a power needs parentheses: ** associates
+        # to the right)
+        sbase = self(expr.base, PREC_POWER + 1)
 
         def stringify_exp(exp):
             if exp == 0:
